@@ -59,6 +59,76 @@ def judge_text(text, want, want_tree, origin):
     return res, nontrivial, (case if nontrivial else None)
 
 
+MUT_CHARS = list("RCQ()[]{}=/%,:!1-.eF_ ") + ["é"]
+
+
+def mutations(text, rng, double):
+    """Single mutations at every position (deletion, insertion, substitution, truncation); a sample of double ones."""
+    out = set()
+    n = len(text)
+    for k in range(n + 1):
+        out.add(text[:k])                                   # truncation at every prefix
+        for ch in MUT_CHARS[:: (1 if n < 40 else 4)]:
+            out.add(text[:k] + ch + text[k:])               # insertion
+        if k < n:
+            out.add(text[:k] + text[k + 1:])                # deletion
+            for ch in MUT_CHARS[:: (2 if n < 40 else 6)]:
+                out.add(text[:k] + ch + text[k + 1:])       # substitution
+    singles = sorted(out)
+    if double:
+        for s1 in rng.sample(singles, min(len(singles), 60)):
+            k = rng.randrange(len(s1) + 1)
+            out.add(s1[:k] + rng.choice(MUT_CHARS) + s1[k:])
+            if s1:
+                k = rng.randrange(len(s1))
+                out.add(s1[:k] + s1[k + 1:])
+    out.discard(text)
+    return sorted(out)
+
+
+def judge_string(st, ctx):
+    texts = ctx["texts"]
+    return judge_text(texts[st["i"] - 1], st["out"], None, ["mutation"])
+
+
+def mutation_family(v: Verdict, tier: str, seed: int):
+    import json as _json
+    import os
+    import random as _random
+    import shutil
+    from .cdcmodel import chars
+    from .c03 import cfg_text as round_cfg
+    from .tlc import scratch_dir
+    rng = _random.Random(seed)
+    seeds_ = []
+    for focus, leaves, depth, mode in ([("shapes", 2, 1, "single"), ("params", 1, 0, "single"), ("subs", 1, 0, "canon"), ("labels", 1, 0, "canon")]):
+        res = run_tlc("CDCRound", round_cfg(focus, leaves, depth, mode), dump=True, timeout=3600)
+        try:
+            texts = sorted({chars(st["text"]) for st in tlaval.iter_dump_states(res.dump_path)})
+        finally:
+            cleanup(res)
+        seeds_ += rng.sample(texts, min(len(texts), {"quick": 4, "thorough": 60}[tier]))
+    muts = sorted({m for t in seeds_ for m in mutations(t, rng, tier == "thorough")})
+    if tier == "quick" and len(muts) > 8000:
+        muts = rng.sample(muts, 8000)
+    work = scratch_dir("c04-strings")
+    path = os.path.join(work, "inputs.json")
+    with open(path, "w") as fh:
+        _json.dump([list(m) for m in muts], fh)
+    try:
+        res = run_tlc("CDCStrings", "SPECIFICATION Spec\nINVARIANT NoCrash\n", env={"INPUT_FILE": path}, dump=True, timeout=7200, heap="24g")
+        try:
+            v.add_tlc(f"mutations of {len(seeds_)} grammar-derived codes ({len(muts)} strings)", res)
+            if res.violated:
+                v.model_violation("CDCStrings", res, "the scanner/parser model reaches a crash outcome on a mutated code")
+            else:
+                replay_states(v, res.dump_path, judge_string, {"texts": muts})
+        finally:
+            cleanup(res)
+    finally:
+        shutil.rmtree(work, ignore_errors=True)
+
+
 def selftest() -> int:
     ensure_repo_on_path()
     r1, _, _ = judge_text("R{R=1}", "", None, [])
@@ -104,6 +174,7 @@ def run(tier: str, seed: int) -> int:
                 replay_states(v, res.dump_path, judge_state)
         finally:
             cleanup(res)
+    mutation_family(v, tier, seed)
     # nesting depth (the model's recursion is unbounded; the implementation's is not)
     for text in deep_inputs():
         r, _, _ = judge_text(text, None, None, ["deep"])
